@@ -382,6 +382,18 @@ def f(a, b, x, s, flag, xs, tp, n):
         v1 = g1(2)
     return (v2,)
 ''', 'mode': 'hostile'}),
+ ('C02', 'state-getter-reads-unbound-body-local', '4feab6d',
+  "a variable that is dead on entry to and exit from a generated conditional (the code after a loop with a lowered return) is a fresh local of the generated body function; a nested statement that carries it in its state read it unbound in get_state (NameError under a backend that calls get_state on entry)",
+  {'src': PREAMBLE + '''def f(a, b, c, xs, o, d):
+    v4 = 1
+    for i1 in xs:
+        return (a,)
+    if a < 5:
+        v4 = a + 1
+    else:
+        v4 = a - 1
+    v4 *= 2
+''', 'inputs': ['(1, 2, 1, [1, 0], Obj(0, 0), {"k": 3, "m": 2, "k.m": 0, "k[0]": 0})', '(1, 2, 1, [], Obj(0, 0), {"k": 3, "m": 2, "k.m": 0, "k[0]": 0})']}),
 ]
 
 OPEN = [
